@@ -243,6 +243,7 @@ func runC04(w *World, r *Report) {
 	r.Rule("exhaust", "list-decoding loops run while any element can remain", 10)
 	r.Rule("keepall", "an element consumed by a list loop is stored on every path", 0)
 	r.Rule("padstep", "branches of a list loop agree on stepping over alignment padding", 10)
+	r.Rule("liststep", "the advance over a list element is computed from that element, not from a value remembered from an earlier iteration", 10)
 	r.Rule("oxm-varlen", "variable-length OXM payloads are decoded with oxm_length (no mask) or half of it (mask)", 2)
 	r.Rule("fresh", "a value decoded into inside a list loop is new in each iteration (or fully overwritten by the child decoder)", 10)
 	codes, err := loadCodes()
@@ -423,7 +424,7 @@ func runC04(w *World, r *Report) {
 		}
 	}
 	// ---------------------------------------------------------------- dispatch: OXM payload kinds by class/field
-	w.oxmDispatchRule(r)
+	w.oxmDispatchRule(r, "dispatch", false)
 
 	// ---------------------------------------------------------------- rlayout and prealloc
 	needsBuilt := map[string][]string{}
@@ -659,23 +660,27 @@ func runC04(w *World, r *Report) {
 			exhaustRule(w, r, dfi)
 			keepAllRule(w, r, dfi)
 			padStepRule(w, r, dfi)
+			carriedStepRule(w, r, "liststep", dfi)
 		}
 	}
 }
 
 // oxmDispatchRule: every class/field case of DecodeMatchField that allocates a
 // payload kind of constant size must agree with the registry width of that field.
-func (w *World) oxmDispatchRule(r *Report) {
+// With builtCoverage the rule also asks that every class/field a constructor of the module can put into a
+// match has a decoding case (the round trip's condition); without it only the fields the specification
+// tables name.
+func (w *World) oxmDispatchRule(r *Report, rule string, builtCoverage bool) {
 	fi := w.Funcs["openflow13.DecodeMatchField"]
 	if fi == nil {
-		r.Fail(VViolation, "dispatch", "openflow13.DecodeMatchField", "", "-", "dispatcher not found")
+		r.Fail(VViolation, rule, "openflow13.DecodeMatchField", "", "-", "dispatcher not found")
 		return
 	}
 	var reg struct {
 		Entries map[string]json.RawMessage `json:"entries"`
 	}
 	if err := loadSpec("oxm_registry.json", &reg); err != nil {
-		r.Fail(VUnmapped, "dispatch", "spec/oxm_registry.json", "", "-", err.Error())
+		r.Fail(VUnmapped, rule, "spec/oxm_registry.json", "", "-", err.Error())
 		return
 	}
 	raw := reg.Entries
@@ -708,6 +713,7 @@ func (w *World) oxmDispatchRule(r *Report) {
 	}
 	info := fi.Pkg.TypesInfo
 	nCases := 0
+	seenCase := map[key]bool{}
 	// walk `if class == C { switch field { case F: val = new(K) } }`
 	var walkIf func(is *ast.IfStmt)
 	handle := func(class int64, sw *ast.SwitchStmt) {
@@ -737,17 +743,18 @@ func (w *World) oxmDispatchRule(r *Report) {
 					continue
 				}
 				nCases++
+				seenCase[key{class, f}] = true
 				inst := fmt.Sprintf("%#x/%d", class, f)
 				wd, known := width[key{class, f}]
 				switch {
 				case !known:
-					r.Fail(VUnmapped, "dispatch", fi.Key, inst, w.Pos(c.Pos()), fmt.Sprintf("class %#x field %d is decoded as %s but has no row in spec/oxm_registry.json", class, f, kind))
+					r.Fail(VUnmapped, rule, fi.Key, inst, w.Pos(c.Pos()), fmt.Sprintf("class %#x field %d is decoded as %s but has no row in spec/oxm_registry.json", class, f, kind))
 				case ls == nil || ls.Term == nil || !ls.Term.IsConst():
-					r.OK("dispatch", fi.Key, inst, w.Pos(c.Pos()), fmt.Sprintf("%s → %s (variable-size payload kind)", name[key{class, f}], kind), false)
+					r.OK(rule, fi.Key, inst, w.Pos(c.Pos()), fmt.Sprintf("%s → %s (variable-size payload kind)", name[key{class, f}], kind), false)
 				case ls.Term.C != wd:
-					r.Fail(VViolation, "dispatch", fi.Key, inst, w.Pos(c.Pos()), fmt.Sprintf("%s (class %#x field %d) is %d bytes wide, but its payload is decoded as %s of %d bytes: value and mask are cut or shifted", name[key{class, f}], class, f, wd, kind, ls.Term.C))
+					r.Fail(VViolation, rule, fi.Key, inst, w.Pos(c.Pos()), fmt.Sprintf("%s (class %#x field %d) is %d bytes wide, but its payload is decoded as %s of %d bytes: value and mask are cut or shifted", name[key{class, f}], class, f, wd, kind, ls.Term.C))
 				default:
-					r.OK("dispatch", fi.Key, inst, w.Pos(c.Pos()), fmt.Sprintf("%s: %d bytes → %s", name[key{class, f}], wd, kind), true)
+					r.OK(rule, fi.Key, inst, w.Pos(c.Pos()), fmt.Sprintf("%s: %d bytes → %s", name[key{class, f}], wd, kind), true)
 				}
 			}
 		}
@@ -772,7 +779,49 @@ func (w *World) oxmDispatchRule(r *Report) {
 		}
 	}
 	if nCases < 40 {
-		r.Fail(VViolation, "dispatch", fi.Key, "inventory", w.Pos(fi.Decl.Pos()), fmt.Sprintf("only %d class/field cases recognised in the match-field dispatcher (reference tree: 90)", nCases))
+		r.Fail(VViolation, rule, fi.Key, "inventory", w.Pos(fi.Decl.Pos()), fmt.Sprintf("only %d class/field cases recognised in the match-field dispatcher (reference tree: 90)", nCases))
+	}
+	// coverage: the fields the specification tables name as decoded outside the registry, and every
+	// class/field a constructor of the module can put into a match, have a decoding case
+	required := map[key]string{}
+	if codes, err := loadCodes(); err == nil {
+		for ks := range codes.OxmExtra {
+			var c, f int64
+			if n, _ := fmt.Sscanf(ks, "0x%x/%d", &c, &f); n == 2 {
+				required[key{c, f}] = "spec/codes.json oxm_extra_widths " + ks
+			}
+		}
+	}
+	if mk := w.Kinds["openflow13.MatchField"]; mk != nil && builtCoverage {
+		for _, cfi := range w.Constructors(mk) {
+			cs := w.CtorSummary(cfi)
+			cv, ok1 := cs.Fields["$.Class"].(IntV)
+			fv, ok2 := cs.Fields["$.Field"].(IntV)
+			if ok1 && ok2 && cv.T != nil && fv.T != nil && cv.T.IsConst() && fv.T.IsConst() {
+				k := key{cv.T.C, fv.T.C}
+				if _, have := required[k]; !have {
+					required[k] = "built by " + cfi.Key
+				}
+			}
+		}
+	}
+	var rk []key
+	for k := range required {
+		rk = append(rk, k)
+	}
+	sort.Slice(rk, func(i, j int) bool {
+		if rk[i].class != rk[j].class {
+			return rk[i].class < rk[j].class
+		}
+		return rk[i].field < rk[j].field
+	})
+	for _, k := range rk {
+		inst := fmt.Sprintf("covered:%#x/%d", k.class, k.field)
+		if seenCase[k] {
+			r.OK(rule, fi.Key, inst, w.Pos(fi.Decl.Pos()), "has a decoding case ("+required[k]+")", true)
+		} else {
+			r.Fail(VViolation, rule, fi.Key, inst, w.Pos(fi.Decl.Pos()), fmt.Sprintf("class %#x field %d (%s) has no decoding case in the match-field dispatcher: a match carrying it is rejected or decoded as another field", k.class, k.field, required[k]))
+		}
 	}
 }
 
@@ -1059,7 +1108,10 @@ func (w *World) oxmVarLenRule(r *Report) {
 	}
 	cs := w.Interpret(callee, "decode")
 	// every width the dispatcher stores into a payload object, as a term over its length parameter
-	type stored struct{ obj string; t *Term }
+	type stored struct {
+		obj string
+		t   *Term
+	}
 	var widths []stored
 	seenW := map[string]bool{}
 	for _, rt := range cs.Rets {
@@ -1148,5 +1200,85 @@ func (w *World) oxmVarLenRule(r *Report) {
 	}
 	if nCalls == 0 {
 		r.Fail(VViolation, "oxm-varlen", caller.Key, "", w.Pos(caller.Decl.Pos()), "the field decoder no longer calls the payload dispatcher")
+	}
+}
+
+// carriedStepRule: in a loop that walks the input, the advance over an element is computed from that
+// element (its reported size, a length field read at the cursor), from constants or from values fixed
+// before the loop — never from a variable carried over from an earlier iteration. A step remembered from
+// the first element (a cached record size) reads every later element of a different size from the wrong
+// place.
+func carriedStepRule(w *World, r *Report, rule string, dfi *FuncInfo) {
+	ds := w.Interpret(dfi, "decode")
+	if ds == nil {
+		return
+	}
+	carried := func(t *Term) string {
+		found := ""
+		var look func(x *Term)
+		look = func(x *Term) {
+			if x == nil {
+				return
+			}
+			for _, a := range x.Atoms {
+				if found != "" {
+					return
+				}
+				if a.Kind == "opq" && (strings.HasPrefix(a.Path, "loop:") || strings.HasPrefix(a.Path, "loopvar:") || strings.HasPrefix(a.Path, "loopfield:")) {
+					found = a.Path
+				}
+				if a.Cond != "" {
+					for _, pre := range []string{"opq(loop:", "loopvar:", "opq(loopfield:"} {
+						if i := strings.Index(a.Cond, pre); i >= 0 {
+							end := strings.IndexAny(a.Cond[i:], ")=<& ")
+							if end < 0 {
+								end = len(a.Cond) - i
+							}
+							found = strings.TrimPrefix(a.Cond[i:i+end], "opq(")
+						}
+					}
+				}
+				for _, s := range a.Sub {
+					look(s)
+				}
+			}
+		}
+		look(t)
+		return found
+	}
+	for li, l := range ds.Loops {
+		if l.Kind != "for" {
+			continue
+		}
+		for _, c := range l.Cursors {
+			if len(c.Paths) == 0 {
+				continue
+			}
+			allZero := true
+			for _, p := range c.Paths {
+				if p != nil && !p.IsZero() {
+					allZero = false
+				}
+			}
+			if allZero {
+				continue
+			}
+			inst := fmt.Sprintf("loop#%d/%s", li+1, c.Var)
+			bad := ""
+			for _, p := range c.Paths {
+				if p == nil {
+					continue
+				}
+				if v := carried(p); v != "" {
+					bad = fmt.Sprintf("on a path back to the loop head %s advances by %v, which depends on %s — a value carried over from an earlier iteration", c.Var, p, v)
+					break
+				}
+			}
+			if bad != "" {
+				r.Fail(VViolation, rule, dfi.Key, inst, w.Pos(l.Pos), bad+": elements whose size differs from the remembered one are read from the wrong offset")
+			} else {
+				r.OK(rule, dfi.Key, inst, w.Pos(l.Pos), "every advance is computed from the current element, constants or values fixed before the loop", true)
+			}
+		}
 	}
 }
